@@ -414,12 +414,13 @@ var c05Templates = []diffTmpl{
 	{"local t = {[''] = function() error('s') end}; emit((pcall(function() t['']() end)), (pcall(t[''])))", "num"},
 	{"local n = 0; local function f() n = n + 1; if n < 3 then error(n) end; return n + x end; local r; repeat local ok, v = pcall(f); r = v until ok; emit(r, n)", "int"},
 	{"local a, b = x, y; local function seta(v) a = v end; local function getb() return b end; pcall(error, 'e'); local function setb(v) b = v end; setb(z); seta(1); emit(a, b, getb())", "num"},
+	{"local ok, e = pcall(error, '100%', 0); emit(ok, e); local ok2, e2 = pcall(function() error('rate=%d items %s', 0) end); emit(ok2, e2); emit(select(2, pcall(error, '%%', 0)))", "num"},
 	{"local function lvl() error({v = x}) end; local ok, e = pcall(function() lvl() end); emit(ok, e.v)", "num"},
 }
 
 // C05.tmpl — errors contained by protected calls, whole pipeline against R-lua.
 //
-//verif:harness prop=C05 tier=quick bounds="18 error templates: error values of every type, faults, nested pcall, errors inside metamethods and iterators, retry loops, side effects before/after; inputs symbolic"
+//verif:harness prop=C05 tier=quick bounds="19 error templates: error values of every type, faults, nested pcall, errors inside metamethods and iterators, retry loops, side effects before/after; inputs symbolic"
 func H_C05_tmpl() {
 	t := c05Templates[VChoice(len(c05Templates))]
 	diffRun(t.src, t.src, c01Inputs(t.kind), Options{})
